@@ -244,3 +244,7 @@ func driveBSCClient(t *testing.T, in, out string, seed int64) {
 		}
 	}
 }
+
+func cryptoSign(hash []byte, k *bscKeys, signer int) ([]byte, error) {
+	return crypto.Sign(hash, k.Keys[signer-1])
+}
